@@ -61,7 +61,8 @@ def random_layout(rnd: random.Random, root="proj", depth=4, n_dirs=(2, 6), n_fil
     dirs = [""]
     used = {"": set()}
     for _ in range(rnd.randint(*n_dirs)):
-        parent = rnd.choice(dirs)
+        # bias towards deepening: half of the time extend one of the two most recently created directories
+        parent = rnd.choice(dirs[-2:]) if rnd.random() < 0.5 else rnd.choice(dirs)
         if parent.count("/") + (1 if parent else 0) >= depth:
             continue
         n = rnd.choice(names)
